@@ -1211,10 +1211,26 @@ def check_C08(sc, v, tier, seed, replay):
                      "well-formed = every length field equals the length of its contents"]
 
 
+def _nas_fields(sc, v):
+    """bit-field accessors of the information elements on the emulator's path against the positions of TS 24.501 9.11 (NasFields.tla)"""
+    trace = os.path.join(sc.work, "fields.ndjson")
+    sc.run("rec-nas", ["-fields", trace])
+    results, rejects, lines = vlib.validate_trace(sc, "NasFields", trace, parallel=4)
+    v.add_tlc(results)
+    covered = set(pl.strip().strip('"').split(" ", 1)[1] for r in results for pl in r.prints if "COVERED" in pl)
+    v.extra["field_accessors_checked"] = len(covered)
+    v.evaluations += len(covered)
+    if len(covered) < 100:
+        raise HarnessError("NasFields: only %d accessors were found by reflection (table has 119 rows)" % len(covered))
+    _reject_to_violation(v, rejects, lambda r, e: "Field:%s.%s" % (e.get("type"), e.get("acc")))
+
+
 def check_C09(sc, v, tier, seed, replay):
     _nas_run(sc, v, tier, seed, "C09")
+    _nas_fields(sc, v)
     v.rule = ("the same generated encodings as C08 judged against the tables: the library must decode the TS 24.501 encoding of every message to the "
               "intended message type, mandatory values in order and optional [IEI, value] list (message type octets, IEIs, formats, length widths); "
               "the 10 constructor calls on the emulator's path are parsed by the independent parser Nas24501!NasDecode to the intended values; "
+              "the 119 bit-field / octet-string accessors of the 27 information element types on the emulator's path against the positions of TS 24.501 9.11 (NasFields.tla); "
               "distinct = distinct abstract message")
     v.assumptions = ["Nas24501.tla is my transcription of TS 24.501 Release 15 clauses 8.2/8.3 (rows adjudicated from the standard's text; see DESIGN)"]
